@@ -209,6 +209,25 @@ def search(ctx, protos, per):
                                 break
             nli = len(p['lead_in'])
             nlo = len(p['lead_out'])
+            # a lead-in duration clearly outside the configured tolerance (off by tol + max(6, tol) percent, either direction)
+            if a is first_a and len(f) > nli + nlo and p['lead_in'] == f[:nli]:
+                for tol in order:
+                    off = tol + max(6, tol)
+                    for j in range(nli):
+                        for sgn in (-1, 1):
+                            g = list(f)
+                            g[j] = f[j] * (100 + sgn * off) // 100
+                            if g[j] == 0 or (g[j] > 0) != (f[j] > 0):
+                                continue
+                            if period is not None and len(g) > 1 and g[-1] < 0 and period > sum(abs(x) for x in g[:-1]):
+                                g[-1] = -(period - sum(abs(x) for x in g[:-1]))
+                            r = decode_params(p, g, tol, a)
+                            ctx.count_eval(key=(name, 'lead-in-off', tol, j, sgn))
+                            if r is None:
+                                hits[name] = True
+                                ctx.report(name, 'lead-in clearly outside the configured tolerance decoded as the original',
+                                           dict(a, tol=tol, position=j, sig='tol%d:li%d:%+d' % (tol, j, sgn)),
+                                           dict(protocol=name, params=a, tolerance=tol, frame=g, position=j, burst=g[j], original=f[j]))
             if len(f) - nli - nlo >= 2:
                 # rejection of a far burst in the data section
                 i = rng.randrange(nli, len(f) - max(nlo, 1))
